@@ -75,10 +75,17 @@ def boxes(tier):
 
 def box_job(job):
     from toasty import toast
-    from toasty.samplers import _latlon_tile_filter
+    from toasty import samplers as _s
 
     bxs, depth, planetary = job
     part = Part()
+    _latlon_tile_filter = getattr(_s, "_latlon_tile_filter", None)
+    if _latlon_tile_filter is None:
+        # arbitrary boxes are only reachable through this non-public factory; chunk and image filters
+        # (public) are checked elsewhere in this driver
+        part.count("box_clause_skipped_private_api_absent")
+        part.case(nontrivial=False)
+        return part
     csn = "planetary" if planetary else "astronomical"
     tiles = {tuple(t.pos): t for t in toast.generate_tiles(depth, bottom_only=False, coordsys=cs_of(planetary))}
     for box in bxs:
